@@ -54,6 +54,13 @@ def rule_gv_writers(ctx, eff, label=""):
             if inside:
                 continue
             ctx.violation("C14.1", s.fi, node, f"{desc} in {q}", "code outside global_variables' own methods modifies the global `gv`: devices/codecs must only read it")
+        if not inside:
+            from ..effects import GV_ROOT
+            for (p_, path), node in s.mutates.items():
+                if p_ == GV_ROOT:
+                    n += 1
+                    ctx.violation("C14.1", s.fi, node, f"in-place write to gv{path} through an alias in {q}: {src_of(node)[:100]}",
+                                  "an array of the global grid (gv.t / gv.w) reached this code by reference and is modified in place: every later device sees a corrupted grid until gv is rebuilt")
     # module level statements
     for m in pkg.modules.values():
         for st in m.tree.body:
